@@ -42,9 +42,21 @@ type client struct {
 }
 
 func start(kind string) (*client, error) {
-	c := &client{kind: kind, s: memsock.New("udp"), ch: 0x21}
-	c.tunnel = kind == "tunnel" || kind == "group-tunnel"
-	c.group = kind == "group-tunnel" || kind == "group-router"
+	c := &client{kind: kind, ch: 0x21}
+	real := kind == "tunnel-real-socket" || kind == "group-tunnel-real-socket"
+	if real {
+		// loopback slice: the real constructors (knx.NewTunnel / knx.NewGroupTunnel)
+		// and the library's own UDP socket
+		b, err := memsock.NewBridge()
+		if err != nil {
+			return nil, err
+		}
+		c.s = b
+	} else {
+		c.s = memsock.New("udp")
+	}
+	c.tunnel = kind == "tunnel" || kind == "group-tunnel" || real
+	c.group = kind == "group-tunnel" || kind == "group-router" || kind == "group-tunnel-real-socket"
 	s := c.s
 	s.Handler = func(ev memsock.Event) {
 		if ev.P.Service == spec.SvcConnReq {
@@ -53,8 +65,14 @@ func start(kind string) (*client, error) {
 	}
 	tcfg := knx.TunnelConfig{ResendInterval: 20 * time.Millisecond, HeartbeatInterval: 10 * time.Minute, ResponseTimeout: 2 * time.Second}
 	switch kind {
-	case "tunnel":
-		t, err := knx.NewTunnelOnSocket(s, knxnet.TunnelLayerData, tcfg)
+	case "tunnel", "tunnel-real-socket":
+		var t *knx.Tunnel
+		var err error
+		if real {
+			t, err = knx.NewTunnel(s.BridgeAddr(), knxnet.TunnelLayerData, tcfg)
+		} else {
+			t, err = knx.NewTunnelOnSocket(s, knxnet.TunnelLayerData, tcfg)
+		}
 		if err != nil {
 			return nil, err
 		}
@@ -72,6 +90,9 @@ func start(kind string) (*client, error) {
 			}
 		}
 		c.close = t.Close
+		if real {
+			c.close = func() { t.Close(); s.CloseBridge() }
+		}
 	case "router":
 		rt, err := knx.NewRouterOnSocket(s, knx.RouterConfig{})
 		if err != nil {
@@ -91,14 +112,23 @@ func start(kind string) (*client, error) {
 			}
 		}
 		c.close = rt.Close
-	case "group-tunnel":
-		gt, err := knx.NewGroupTunnelOnSocket(s, tcfg)
+	case "group-tunnel", "group-tunnel-real-socket":
+		var gt knx.GroupTunnel
+		var err error
+		if real {
+			gt, err = knx.NewGroupTunnel(s.BridgeAddr(), tcfg)
+		} else {
+			gt, err = knx.NewGroupTunnelOnSocket(s, tcfg)
+		}
 		if err != nil {
 			return nil, err
 		}
 		in := gt.Inbound()
 		c.read = groupReader(in)
 		c.close = gt.Close
+		if real {
+			c.close = func() { gt.Close(); s.CloseBridge() }
+		}
 	case "group-router":
 		gr, err := knx.NewGroupRouterOnSocket(s, knx.RouterConfig{})
 		if err != nil {
@@ -282,7 +312,7 @@ func run(rr *mon.Run) {
 	r = rr
 	r.Rule("bursts of accepted telegrams against consumer behaviours {ready, stalled for the burst, intermittently ready} for Tunnel, Router, GroupTunnel, GroupRouter. Order, exactly-once and completeness are demanded in every regime: lock-step on every client; on the group clients at most two telegrams unread at any time incl. bursts of 2 against a stalled consumer that resumes at a random moment; bursts of 2..64 with unbounded backlog. Distinct = distinct (client, behaviour, size, throttle, seed) bursts; interleavings = distinct read permutations")
 	defer runtime.GOMAXPROCS(runtime.NumCPU())
-	kinds := []string{"tunnel", "router", "group-tunnel", "group-router"}
+	kinds := []string{"tunnel", "router", "group-tunnel", "group-router", "tunnel-real-socket", "group-tunnel-real-socket"}
 	rng := rand.New(rand.NewSource(r.Seed()*3331 + 5))
 	reps := r.Pick(1, 25)
 	base := uint32(1000)
